@@ -51,6 +51,8 @@ C06_B == TV(1, 0, 0, 0, 4, 0, 0) @@ [inst |-> I1only, ann0 |-> <<"I1">>] @@ CfgD
 SubOps(gs, srvs) == {[op |-> o, g |-> g, srv |-> a] : o \in {"subscribe", "unsubscribe"}, g \in gs, a \in srvs}
                     \cup {[op |-> "sub_start"], [op |-> "sub_stop"]}
 C14_Inputs == SubOps({"G1", "G2"}, {"a1", "a2"})
+\* ... and calls that the application queues with call_soon (they run among the library's own callbacks of the next iteration)
+C14_InputsD == SubOps({"G1"}, {"a1"}) \cup {[op |-> "defer", e |-> i] : i \in {j \in SubOps({"G1"}, {"a1"}) : j.op = "unsubscribe"}}       \* (only stop-subscribes are queued: no duplicate subscribe can result)
 C14_A == [egs |-> [G1 |-> [ep |-> "l1"], G2 |-> [ep |-> "l2"]], subTTL |-> 6, refresh |-> 2, peers |-> Peers2] @@ CfgDefault
 C14_B == [egs |-> [G1 |-> [ep |-> "l1"], G2 |-> [ep |-> "l2"]], subTTL |-> FOREVER, refresh |-> 0, peers |-> Peers2] @@ CfgDefault
 \* ---- C13: find task
